@@ -156,6 +156,13 @@ func casesC09(g *Gen) []*Case {
 		c.Oracle = oracleNoCrash
 		cs = append(cs, c)
 	}
+	// nil pointers to types with methods (String, Error, marshalers), at the root, in struct fields, in containers: they are nil, no method is called on them
+	for _, src := range []string{"{{ x }}|{{ y }}|{{ z }}", "@dump(x, y, z)", "{{ x.d ? 1 : 0 }}{{ x.t ? 1 : 0 }}{{ x.u ? 1 : 0 }}{{ x.ok }}", "{{ y.deleted }}|{{ y.site }}|{{ y.price.amount }}|{{ y.name }}",
+		"@each(v in z)[{{ v }}]@end", "{{ z.len() }}{{ z[4] }}", "{{ y.doc.title }}", "{{ x.t.year }}", "@if(y.err)E@else none@end"} {
+		c := evalCase("nil_pointers_with_methods", src, gvMap("x", gvNamed(21), "y", gvNamed(22), "z", gvNamed(23)))
+		c.Oracle = oracleNoCrash
+		cs = append(cs, c)
+	}
 	// the line of a fault that follows string literals holding line breaks (first, last, only character)
 	for _, pre := range []string{"{{ \"\nabc\" }}", "{{ '\n' }}", "{{ \"a\n\" }}", "{{ \"\n\n\" }}{{ '\nx\n' }}", "{{ [\"\n\", \"b\"] }}", "{{ \"\r\nq\" }}", "@if(\"\n\" == \"\")@end", "{{ x = \"\nz\" }}"} {
 		for _, f := range []struct{ src, part string }{{"{{ 5 % 0 }}", "division"}, {"{{ i7.x }}", ""}, {"@each(q in 7)x@end", ""}, {"{{ \"a\".repeat(\"b\") }}", ""}} {
@@ -689,6 +696,15 @@ func casesC11(g *Gen) []*Case {
 			mk("str_decimal", "{{ s.decimal() }}", d, s)
 		}
 	}
+	// decimal() on strings that look almost like integers: only what strconv.Atoi accepts is formatted, everything else comes back unchanged
+	for _, s := range []string{"-", "+", "--1", "+-1", "-+1", "1-", "1+", " 1", "1 ", "- 1", "0x10", "1e3", "1_000", "١٢", "１２", "12345678901234567890", "-12345678901234567890", "9223372036854775808", ".", "-.", "1.", ".5", "", "١", "+", "−5"} {
+		d := gvMap("s", gvStr(s))
+		mk("str_decimal_almost", "{{ s.decimal() }}|{{ s.decimal(\",\", 3) }}|{{ s.decimal(\".\", 0) }}", d, s+"|"+s+"|"+s)
+	}
+	for _, s := range []string{"+5", "-0", "+0", "007", "-007", "9223372036854775807", "-9223372036854775808"} {
+		d := gvMap("s", gvStr(s))
+		mk("str_decimal_almost", "{{ s.decimal() }}|{{ s.decimal(\",\", 3) }}|{{ s.decimal(\".\", 0) }}", d, s+".00|"+s+",000|"+s)
+	}
 	// arrays: slice clamps, append / prepend / reverse / contains / join / len
 	for n := 0; n <= g.scale(4, 5); n++ {
 		var elems []*GV
@@ -1038,6 +1054,20 @@ func casesC12(g *Gen) []*Case {
 			"{{ c.errs[0].code }}{{ c.errs[0].msg }}|{{ c.strs[0].amount }}|{{ c.strs[1] }}": "1e1|4|it",
 		} {
 			c := evalCase("types_with_methods", src, data)
+			c.Oracle = expectOut(want)
+			cs = append(cs, c)
+		}
+	}
+	// nil pointers to types with methods are nil wherever they stand; a pointer that is set is its struct
+	{
+		data := gvMap("x", gvNamed(21), "y", gvNamed(22), "z", gvNamed(23))
+		for src, want := range map[string]string{
+			"{{ x.d ? 1 : 0 }}{{ x.p ? 1 : 0 }}{{ x.t ? 1 : 0 }}{{ x.u ? 1 : 0 }}{{ x.e ? 1 : 0 }}{{ x.ok }}": "000001",
+			"[{{ x.d }}|{{ x.t }}|{{ x.u }}]":                                                                   "[||]",
+			"{{ y.deleted ? 1 : 0 }}{{ y.site ? 1 : 0 }}{{ y.doc ? 1 : 0 }}{{ y.err ? 1 : 0 }}|{{ y.price.amount }} {{ y.price.cur }}|{{ y.name }}": "0000|5 USD|n",
+			"{{ z.len() }}|{{ z[0] }}|{{ z[2] ? 1 : 0 }}|{{ z[3] ? 1 : 0 }}|{{ z[4] }}":                            "5||0|0|7",
+		} {
+			c := evalCase("nil_pointers_with_methods", src, data)
 			c.Oracle = expectOut(want)
 			cs = append(cs, c)
 		}
